@@ -371,8 +371,11 @@ fn stress(ctx: &Ctx, out: &mut Outcome) {
                 let mut chunks: Vec<String> = (0..1 + rng.usize(3)).map(|_| format!("c{}", rng.usize(5))).collect();
                 chunks.sort();
                 chunks.dedup();
+                // (the level argument says which level is being compacted; a chunk under lease is under lease
+                //  whatever level the other request names)
+                let level = rng.below(3) as u32;
                 hs.push(tokio::spawn(async move {
-                    let r = c.acquire_lease(&format!("n{t}"), &chunks, 0).await;
+                    let r = c.acquire_lease(&format!("n{t}"), &chunks, level).await;
                     res.lock().push((t, chunks, r.ok().map(|l| l.lease_id)));
                 }));
             }
@@ -411,7 +414,7 @@ fn stress(ctx: &Ctx, out: &mut Outcome) {
                     out.violation("C08/local/renew-in-time-refused", "", json!({"round": idx}));
                 }
                 clock::advance_wall(150 * S); // 350 s after acquisition: un-renewed leases are expired, w0 is not
-                let r = client.acquire_lease("late", &w0.1, 0).await;
+                let r = client.acquire_lease("late", &w0.1, rng.below(3) as u32).await;
                 if r.is_ok() {
                     out.violation(
                         "C08/local/renewed-lease-displaced",
@@ -425,7 +428,7 @@ fn stress(ctx: &Ctx, out: &mut Outcome) {
                     if free.is_empty() {
                         continue;
                     }
-                    match client.acquire_lease("late", &free, 0).await {
+                    match client.acquire_lease("late", &free, rng.below(3) as u32).await {
                         Ok(nl) => {
                             // the displaced holder must be told at its next renew
                             if client.renew_lease(w.2.as_ref().unwrap()).await.is_ok() {
